@@ -41,6 +41,8 @@ def call_prim(ip, name, args, kwargs):
         a, b = ip.seq_of(args[0]) if not isinstance(args[0], Z) else V.seq_items(args[0].t), \
             ip.seq_of(args[1]) if not isinstance(args[1], Z) else V.seq_items(args[1].t)
         return ZBool(z3.PrefixOf(a, b))
+    if name == "IsJson":
+        return _is_json(ip, args[0])
     if name == "Binds":
         return _binds(ip, *args)
     if name == "implies":
@@ -111,3 +113,40 @@ def _forall(ip, n, fn):
     insts = ip.path.instances(j)
     body = merged_bool(ip, lambda sub: sub.call(fn, [ZInt(j)], {}), ("forall", value_key(fn), tid(j)))
     return ZBool(z3.Implies(z3.And([j >= 0, j < nn] + insts), body))
+
+
+def _is_json(ip, v):
+    """JSON-compatible: dict with string keys / list / str / int / float / bool / None, recursively.  Concrete spines are
+    walked; a symbolic leaf must be a JSON scalar (z3 condition)."""
+    from .sym import LDict, LList, LTuple, ZSeq, SObj
+    if isinstance(v, C):
+        import json
+        try:
+            return C(json.loads(json.dumps(v.v)) == v.v and not isinstance(v.v, tuple))
+        except (TypeError, ValueError):
+            return C(False)
+    if isinstance(v, (ZBool, ZInt)):
+        return C(True)
+    if isinstance(v, LDict):
+        conds = []
+        for k, x in v.pairs:
+            if not (isinstance(k, C) and isinstance(k.v, str)):
+                return C(False)
+            conds.append(_is_json(ip, x))
+    elif isinstance(v, LList) and v.concrete:
+        conds = [_is_json(ip, x) for x in v.items]
+    elif isinstance(v, (LTuple, SObj)):
+        return C(False)
+    elif isinstance(v, Z):
+        t = v.t
+        return ZBool(z3.Or(V.is_none(t), V.is_bool(t), V.is_int(t), V.is_float(t), V.is_str(t)))
+    else:
+        raise Unsupported(f"IsJson of {type(v).__name__}")
+    acc = []
+    for c in conds:
+        if isinstance(c, C):
+            if not c.v:
+                return C(False)
+        else:
+            acc.append(c.b)
+    return ZBool(z3.And(acc)) if acc else C(True)
